@@ -218,8 +218,8 @@ func Run(c *engine.Ctx) {
 	c.Cov["settings_combinations"] = len(sets)
 	c.Cov["catalogue_size"] = len(apworld.Catalogue(time.Minute))
 	b := apworld.Base(18)
-	apworld.Catalogue(5 * time.Minute)[46].Apply(&b)
-	c.Sample(map[string]interface{}{"case": b, "settings": sets[defIdx], "defects": []string{apworld.Catalogue(5 * time.Minute)[46].Name}})
+	apworld.Catalogue(5 * time.Minute)[49].Apply(&b)
+	c.Sample(map[string]interface{}{"case": b, "settings": sets[defIdx], "defects": []string{apworld.Catalogue(5 * time.Minute)[49].Name}})
 	c.Cov["rule"] = "etype(6) x settings (3 skews x require-host-addr x client address {none,matching,other} x keytab principal override {none,right,wrong} x PAC decoding = 108) x {valid, each single catalogue defect}; every pair of defects under two settings (quick) or all settings (thorough); distinct = (etype, expected reason, defect set) classes whose verdict and reported identity matched"
 }
 
